@@ -26,3 +26,17 @@ func dumpWire(w *simnet.World, match string) {
 		}
 	}
 }
+
+func dumpEvents(w *simnet.World, match string) {
+	if os.Getenv("VERIF_DEBUG") == "" {
+		return
+	}
+	for _, l := range w.CanonicalLog() {
+		if strings.Contains(l, " wire ") {
+			continue
+		}
+		if match == "" || strings.Contains(l, match) {
+			fmt.Fprintln(os.Stderr, l)
+		}
+	}
+}
